@@ -139,6 +139,21 @@ PROPS = {
         note=KERNEL_NOTE + ' Real view as for C14: assumed order contracts of the mpf operations (contracts/realview.py).',
         explanation='deductive containment proofs for six of the operations over the assumed real-order contracts; no claim for the transcendental functions',
         technique='deductive VCs over the reals (universally quantified member points) from the real libmpi mpci_* bodies, callee contracts instantiated per call'),
+    'C38': dict(
+        title='contexts are isolated from each other', level='other', engines=['ownership'], no_units=True,
+        claim='Frame (ownership) contracts decided for every function of mpmath outside tests (all inputs; the rules are about which '
+              'object a store goes to): (W1) a function stores into the precision state (_prec, _dps, _prec_rounding, prec, dps) only of '
+              'its own context -- its ctx/self parameter, an object created for that context (.ctx/.context), the context\'s `_mp` '
+              'delegate, or a context it has just constructed; (W2) the state containers are fresh list displays and the _ctxdata of the '
+              'numeric classes point at the receiver\'s own list; (W3) the numeric classes are created per context by type(...) and '
+              'linked to that context; (W4) no library function names the global mp / fp / iv; (W5) every attribute that '
+              'mpmath/__init__.py sets on the global mp is also set by the MPContext constructors, so clones have it. Found and repaired: '
+              'clones lacked `_mp` (mp.clone().zeta(0.5+1e7j) raised AttributeError, F20). Not covered: that a clone computes the same '
+              '*values* as mp (beyond having the same code and attributes), module-level caches (their keys are under C33), fp/iv '
+              'sharing the global mp as `_mp` delegate (a temporary, restored precision change of mp during fp/iv zeta evaluations).',
+        note='Syntactic store analysis over the ast of every source file; computed attribute names and C extensions are not seen.',
+        explanation='ownership/frame contracts decided syntactically for all functions; the value-equality half of the property is not decided',
+        technique='deductive frame (ownership) contracts over the real sources: every store into context state is checked against the function\'s own context'),
     'C29': dict(
         title='root finders return genuine roots', level='proof', engines=['guards'], no_units=True,
         claim='Control/data-flow contracts decided for all inputs by enumerating every path of the real function bodies '
@@ -279,7 +294,6 @@ NOT_APPLICABLE = {
     'C32': 'matrix function identities to a tolerance are numerical analysis',
     'C34': 'accuracy of ODE Taylor stepping is analytic',
     'C36': 'approximation accuracy is analytic',
-    'C38': 'not built yet (context ownership contracts)',
     'C41': 'locating/counting zeta zeros correctly rests on analytic facts (Gram/Rosser blocks, Turing method)',
     'C42': 'accuracy of numerical inverse Laplace transforms is analytic (its precision handling is decided under C11)',
     'C43': 'fp results are IEEE doubles from libm; no float theory here matches libm, and agreement to 2**-48 is numerical',
